@@ -10,6 +10,8 @@ TRUSTED_BASE = ["harness/detsched.py, harness/engine_corr.py, harness/planlevel.
 
 
 def run(ctx):
+    implicit_call_failures(ctx)
+    failing_call_without_cwd(ctx)
     engine_corr.campaign(ctx, {"C06"})
     planlevel.plan_campaign(ctx, {"C06"})
     import prune_corr
@@ -108,3 +110,89 @@ def awkward_failures(ctx):
                         type(exc).__name__, variant, "" if e.call is bad else "NOT ", e.__cause__, exc), rep)
                 if dependents:
                     ctx.fail("awkward:downstream-ran", "the dependent of the failing call ran", rep)
+
+
+def implicit_call_failures(ctx):
+    """The failing call may be one the library created itself (the gather_* call of a container argument, unpack, the getitem of an
+    unpacked item): the error names THAT call - a call that did raise in this run - never the user call fed by it, which was not started."""
+    uberjob = core.use_repo()
+    cases = {
+        "gather_set of an unhashable item": lambda plan, x, started: plan.call(lambda v: started.append("consumer") or v, {x, 1}),
+        "gather_dict with an unhashable key": lambda plan, x, started: plan.call(lambda v: started.append("consumer") or v, {x: 1}),
+        "unpack of too few items": lambda plan, x, started: plan.call(lambda a, b, c: started.append("consumer"), *plan.unpack(x, 3)),
+        "getitem beyond the unpacked length": lambda plan, x, started: plan.call(lambda v: started.append("consumer"), plan.call(__import__("operator").getitem, x, 5)),
+    }
+    for name, build in cases.items():
+        for workers in (1, 3):
+            for max_errors in (0, None):
+                started = []
+                plan = uberjob.Plan()
+                x = plan.call(lambda: started.append("x") or [1, 2])
+                consumer = build(plan, x, started)
+                ctx.case(("implicit-call-failure", name, workers, max_errors))
+                try:
+                    res = uberjob.run(plan, output=consumer, max_workers=workers, max_errors=max_errors, progress=None)
+                    oc, err = "returned %r" % (res,), None
+                except uberjob.CallError as e:
+                    oc, err = "callerror", e
+                except BaseException as e:      # noqa
+                    oc, err = "raised %s: %s" % (type(e).__name__, e), None
+                bad = None
+                if oc != "callerror":
+                    bad = "run %s" % oc
+                elif "consumer" in started:
+                    bad = "the consumer of the failed implicit call was started"
+                elif err.call is consumer or err.call is x:
+                    bad = "the error names %s, which did not raise (it %s)" % ("the consumer call" if err.call is consumer else "the producing call",
+                                                                                    "was never started" if err.call is consumer else "returned normally")
+                elif not isinstance(err.__cause__, (TypeError, ValueError, IndexError, KeyError)):
+                    bad = "the cause is %r, not the exception the implicit call raised" % (err.__cause__,)
+                if bad:
+                    ctx.fail("implicit-call-failure", "%s (max_workers=%d, max_errors=%r): %s" % (name, workers, max_errors, bad), {"case": name, "max_workers": workers, "max_errors": max_errors})
+
+
+CWD_CHILD = r'''
+import os, sys, tempfile, json
+import uberjob
+out = []
+for when in ("before the run", "inside the failing call"):
+    d = tempfile.mkdtemp(prefix="ujc06cwd_")
+    home = os.getcwd() if os.path.isdir("/") else "/"
+    src = "def boom(d, when):\n    import os\n    if when == 'inside the failing call':\n        os.chdir(d); os.rmdir(d)\n    raise ValueError('boom')\n"
+    ns = {}
+    exec(compile(src, "/abs/path/pipeline_%d.py" % len(out), "exec"), ns)
+    plan = uberjob.Plan()
+    build = "def build(plan, boom, d, when):\n    return plan.call(boom, d, when)\n"
+    exec(compile(build, "/abs/path/build_%d.py" % len(out), "exec"), ns)
+    node = ns["build"](plan, ns["boom"], d, when)
+    if when == "before the run":
+        os.chdir(d); os.rmdir(d)
+    try:
+        uberjob.run(plan, output=node, progress=None)
+        out.append([when, "returned"])
+    except uberjob.CallError as e:
+        out.append([when, "callerror" if isinstance(e.__cause__, ValueError) and e.call is node else "callerror naming another call / cause %r" % (e.__cause__,)])
+    except BaseException as e:
+        out.append([when, "raised %s: %s" % (type(e).__name__, e)])
+    os.chdir("/")
+print(json.dumps({"uberjob": os.path.dirname(uberjob.__file__), "out": out}))
+'''
+
+
+def failing_call_without_cwd(ctx):
+    """The process's working directory may have been removed (a job that cleans up after itself, a deleted checkout): a failing call
+    is still reported as CallError naming the call and chaining its exception."""
+    import json
+    import subprocess
+    p = subprocess.run([core.PY, "-c", CWD_CHILD], env=core.repo_env(), stdout=subprocess.PIPE, stderr=subprocess.PIPE, text=True, timeout=120, cwd="/")
+    ctx.case(("failing-call-without-cwd",))
+    if p.returncode != 0:
+        ctx.fail("no-cwd:error", "the helper process failed: %s" % (p.stderr.strip().splitlines()[-1:] or "?"), {"stderr": p.stderr[-1500:]})
+        return
+    rep = json.loads(p.stdout)
+    if not rep["uberjob"].startswith(core.REPO_SRC):
+        ctx.broke("C06 helper imported uberjob from the wrong place", rep["uberjob"])
+    for when, oc in rep["out"]:
+        if oc != "callerror":
+            ctx.fail("no-cwd", "a call fails while the working directory no longer exists (removed %s): run %s instead of raising CallError for the call with its ValueError" % (when, oc),
+                     {"cwd_removed": when, "outcome": oc})
